@@ -10,8 +10,15 @@ RULE = ("correspondence: random operation sequences (pushes incl. forced/dry-mas
         "every operation is compared exactly with the Gallina model. monitors: the C05 clauses evaluated directly on the "
         "implementation after every operation of fresh sequences. non-trivial = distinct sequence of >= 3 operations")
 
+def duo(rep, thorough):
+    # a Sewer / QueueGroundwater behind arcs that back up: an unforced push never raises what its tank holds (arrived plus
+    # queued, measured on the tank's parts) above the capacity
+    import mon_duo
+    return mon_duo.run(rep, thorough, "C05")
+
+
 if __name__ == "__main__":
     sys.exit(comp_check.run("C05", "tank qtank arc qarc altarc tarea".split(), RULE,
                             ["exact-rational semantics stands for float semantics up to rounding",
                              "offers are wet (non-negative, pollutant mass only with positive volume); no arc-level force for capacity clauses",
-                             "end nodes respect the reply contract (proved for tank-backed ends)"]))
+                             "end nodes respect the reply contract (proved for tank-backed ends)"], extra=duo))
